@@ -830,6 +830,21 @@ def generate(prop, verif_seed, idx, tier="quick", cls=None, recover=False):
             if ops[1]["system"] == "c-inference" or g.random() < 0.3:
                 ops[1]["system"] = "c-inference"
                 ops[1]["pmaxsat"] = g.choice(RC2_BACKENDS)
+            if g.random() < 0.5 and not weakly_base:
+                # both managers use the same operator (whatever one of them leaves behind in
+                # process-wide state of that operator meets the other one) ...
+                ops[0] = dict(ops[0], system=ops[1]["system"], pmaxsat=ops[1]["pmaxsat"], weakly=False)
+            if conds is not None and g.random() < 0.5:
+                # ... and the first base contains a conditional that can never be falsified
+                from sim.models.refz import tolerance_partition as _tp
+
+                a_ = W.gen_literal(g, sig)
+                trivial = (a_, a_) if g.random() < 0.6 else (("or", a_, W.gen_literal(g, sig)), a_)
+                pos_ = g.randrange(len(conds) + 1)
+                trial = conds[:pos_] + [trivial] + conds[pos_:]
+                if _tp(sig, trial, False) is not None:
+                    conds = trial
+                    text = W.base_text(sig, conds)
     elif n_mgr >= 2 and g.random() < 0.4:
         # siblings over the same base object: the same operator in the other mode, or with the
         # other kind of back-end (anything cached on the shared base must not leak between them)
@@ -980,11 +995,28 @@ def _generate_history(prop, sseed, idx, g, cls):
         doc["ops"] = ops
         doc["fault_plan"] = {"n": 1, "kinds": ["error"], "ops": [failing], "parent_error": True, "sites": g.choice([["z3.check"], ["rc2.compute"], ["z3.check", "rc2.compute"]])}
         return doc
-    # long
+    # long: a base over the first atoms of a larger signature, so that most queries mention atoms
+    # the base says nothing about; very deep queries (many auxiliary solver variables each)
+    if src == "gen" and conds is not None and len(sig) < 5:
+        sig = W.ATOMS[:5]
+        text = W.base_text(sig, conds)
+        doc["base"] = {"text": text, "src": src}
+        pool = []
+        for _ in range(6):
+            t = W.cond_text(W.gen_query(g, sig, conds))
+            if t not in pool:
+                pool.append(t)
     deep = []
     if len(sig) >= 2:
         for _ in range(3):
-            deep += [W.cond_text(c) for c in W.gen_deep_pair(g, sig)]
+            p_, b_ = g.sample(sig, 2)
+            leaf = g.choice(sig)
+            for neg in (False, True):
+                x = ("not", ("var", leaf)) if neg else ("var", leaf)
+                for lvl in range(g.choice([4, 6, 8])):
+                    other = ("var", g.choice(sig))
+                    x = ("and", ("var", b_), ("or", ("not", ("var", p_)), ("and", other, x) if lvl % 2 else x))
+                deep.append(W.cond_text((x, ("var", p_))))
     deep = list(dict.fromkeys(deep))
     for _ in range(g.randint(25, 40)):
         texts = g.sample(deep, min(len(deep), 3)) + g.sample(pool, 1) if deep else g.sample(pool, min(3, len(pool)))
